@@ -192,6 +192,11 @@ func (c *MapCodec) readMapEntry(mp, k unsafe.Pointer, data []byte) (int, error) 
 		return 0, err
 	}
 
+	// If the entry does not start with the key then whatever it starts with
+	// is the value. The value may legitimately be zero bytes long (e.g. a
+	// pointer to an empty string), so its presence is decided by its tag, not
+	// by whether any data follows the tag.
+	hasValue := len(data) > 0
 	if index == 1 {
 		// Key is present - read it. k is re-used between entries and between
 		// calls, and codecs only write the parts of a value that are present
@@ -202,6 +207,14 @@ func (c *MapCodec) readMapEntry(mp, k unsafe.Pointer, data []byte) (int, error) 
 			return 0, fmt.Errorf("failed reading key field of %s. %w", c.rtype.Name(), err)
 		}
 		offset += n
+
+		hasValue = offset < len(data)
+		if hasValue {
+			offset, fieldEnd, _, wt, err = c.readTagAndLength(data, offset)
+			if err != nil {
+				return 0, err
+			}
+		}
 	} else {
 		k = c.kZero
 	}
@@ -210,14 +223,7 @@ func (c *MapCodec) readMapEntry(mp, k unsafe.Pointer, data []byte) (int, error) 
 	// the value should be. We're going to unmarshal into this directly
 	val := mapassign(unpackEFace(c.rtype).data, mp, k)
 
-	if offset < len(data) {
-		if index == 1 {
-			offset, fieldEnd, _, wt, err = c.readTagAndLength(data, offset)
-			if err != nil {
-				return 0, err
-			}
-		}
-
+	if hasValue {
 		n, err := c.valueCodec.Read(data[offset:fieldEnd], val, wt)
 		if err != nil {
 			return 0, fmt.Errorf("failed reading value field of %s. %w", c.rtype.Name(), err)
